@@ -1,5 +1,5 @@
 (* drv_c08.ml — front end of coq/Rt/Constraints.v (C08).
-     cty   := b | n | i[parts;parts] | o[parts] | s{cty*} | q[parts]cty | c{cty*} | Rcty | ?cty
+     cty   := b | n | i[parts;parts] | o[parts] | s{cty*} | q[parts]cty | c{cty*} | R<0|1>cty | ?cty
      parts := empty | edge:edge(,edge:edge)*        edge := [-]digits | *   (MIN on the left, MAX on the right)
      val   := as in drv_rt.ml:  T | F | N | I<num>; | O<hex>; | S{val*} | L{val*} | C<num>:val | _ | !val
    commands:
@@ -60,7 +60,8 @@ let rec parse_ty s pos : cty * int =
            let p = expect s p ']' in
            let (e, p) = parse_ty s p in (CSeqOf (ps, e), p)
   | 'c' -> let (alts, p) = parse_tys s (expect s (pos + 1) '{') in (CChoice alts, p)
-  | 'R' -> let (t, p) = parse_ty s (pos + 1) in (CRef t, p)
+  | 'R' -> let g = (pos + 1 < String.length s && s.[pos + 1] = '1') in
+           let (t, p) = parse_ty s (pos + 2) in (CRef (g, t), p)
   | '?' -> let (t, p) = parse_ty s (pos + 1) in (COpt t, p)
   | c -> raise (Parse (Printf.sprintf "bad type char %c at %d" c pos))
 and parse_tys s pos : cty list * int =
